@@ -169,7 +169,7 @@ def handleC14 (op : String) (args : Array Json) : Option Json := do
     let res ← (← jArr? (fin.getObjValD "res")).toList.mapM jStr?
     let closed ← (← jArr? (fin.getObjValD "closed")).toList.mapM jBool?
     let preps ← (← jArr? (fin.getObjValD "preps")).toList.mapM jNat?
-    match replay nQ steps [init ops nV] [] [] 0 with
+    match replay nQ steps [init ops nV genCfg] [] [] 0 with
     | .error j => some j
     | .ok (states, labels) =>
       let acc := states.filter fun s =>
@@ -201,7 +201,7 @@ def handleC14 (op : String) (args : Array Json) : Option Json := do
       | "closeE" => some (Act.closeE i)
       | "closeH" => some (Act.closeH i)
       | _ => none
-    let s := run (init ops nV) acts
+    let s := run (init ops nV genCfg) acts
     some (finalJ nQ s)
   | _ => none
 
